@@ -292,7 +292,7 @@ OptExp(s)       == {NoTime} \cup {SomeTime(t) : t \in ExpTicks}
 
 Refs == IF MaxList = 1 /\ Cardinality(Users) < 3 THEN {"r1"} ELSE {"r1", "r2"}
 \* batch end date = start date + delta; 0 (start = end) is accepted by MsgCreateBatch
-EndDeltas == IF MaxList = 1 /\ Cardinality(Users) >= 3 THEN {0, 1} ELSE {1}
+EndDeltas == IF MaxList = 1 THEN {0, 1} ELSE {1}
 OfferedFees == {NoCoin} \cup {SomeCoin(d, n) : d \in FeeDenomsOffered, n \in CoinAmts}
 
 Rcpts == Users \cup Spellings
